@@ -7,6 +7,10 @@ class ScriptExhausted(Exception):
     pass
 
 
+class HarnessError(Exception):
+    """the script handed to the harness does not fit what the code asked for (a harness problem, not an observation)"""
+
+
 class ScriptedRandom(random.Random):
     """A real `random.Random` whose `_randbelow` pops scripted values, so that the stdlib's own
     `shuffle` / `choice` / `randrange` bodies run on chosen draws.  `log` records (n, value)."""
@@ -98,7 +102,7 @@ class SemanticRandom:
         ctx = self._ctx(api, 3)
         v = self.on_uniform(n, ctx)
         if not (isinstance(v, int) and 0 <= v < n):
-            raise ValueError(f"scripted uniform index {v!r} out of range for {n} alternatives")
+            raise HarnessError(f"scripted uniform index {v!r} out of range for {n} alternatives")
         self.events.append(("U", n, api, ctx["func"]))
         return v
 
@@ -138,7 +142,7 @@ class SemanticRandom:
         ctx = self._ctx("shuffle")
         y = self.on_permutation(list(x), ctx)
         if sorted(map(repr, y)) != sorted(map(repr, x)):
-            raise ValueError("scripted permutation is not a permutation of the list")
+            raise HarnessError("scripted permutation is not a permutation of the list")
         self.events.append(("P", len(y), "shuffle", ctx["func"]))
         x[:] = y
 
@@ -184,7 +188,7 @@ class SemanticRandom:
             ctx.update(population=pop, k=k, t=t)
             i = self.on_weighted(w, ctx)
             if not (isinstance(i, int) and 0 <= i < n):
-                raise ValueError(f"scripted weighted index {i!r} out of range")
+                raise HarnessError(f"scripted weighted index {i!r} out of range")
             self.events.append(("W", n, "choices", ctx["func"]))
             out.append(pop[i])
         return out
